@@ -165,6 +165,12 @@ const settle = 3 * time.Millisecond
 func (w *world) force(s sched, point string, call func(ctx context.Context) (string, [][]int, string)) (ret string, res [][]int, errs string, forced bool) {
 	for name, n := range w.nodes {
 		n.Reset(s.O[name], true)
+		// "gone": the node has left the cluster - it is still named in the replica sets, but the address book
+		// no longer knows it.  Nothing can be asked of it; the call has to fail loudly
+		if s.O[name] == "gone" {
+			w.conn.RemoveNode(n.Id)
+			defer w.conn.AddNode(n.Id, n.Addr)
+		}
 	}
 	g := installGate(point)
 	ctx, cancel := context.WithCancel(context.Background())
@@ -186,7 +192,10 @@ func (w *world) force(s sched, point string, call func(ctx context.Context) (str
 		budget, w.warm = 2*time.Second, true // first call: connections are being dialled
 	}
 	deadline := time.Now().Add(budget)
-	for _, n := range w.nodes {
+	for name, n := range w.nodes {
+		if s.O[name] == "gone" {
+			continue
+		}
 		d := time.Until(deadline)
 		if d < time.Millisecond {
 			d = time.Millisecond
@@ -216,7 +225,7 @@ func (w *world) force(s sched, point string, call func(ctx context.Context) (str
 		default:
 			n := w.nodes[tok]
 			n.Release()
-			if s.O[tok] != "slow" {
+			if s.O[tok] != "slow" && s.O[tok] != "gone" {
 				if !n.WaitFinished(150 * time.Millisecond) {
 					forced = false
 				}
@@ -359,6 +368,17 @@ func runScheds(mode string, scheds []sched, out string, seed int64, stride int) 
 			continue
 		}
 		hid++
+		if hid%5 == 2 {
+			// every fifth schedule: the failing workers have left the cluster instead of answering with an error
+			o2 := map[string]string{}
+			for k, v := range s.O {
+				if v == "err" {
+					v = "gone"
+				}
+				o2[k] = v
+			}
+			s.O = o2
+		}
 		withLocal := mode == "size" && rng.Intn(2) == 0
 		ds := dsets[withLocal]
 		// as many local partitions as remote ones: the local answers alone must not satisfy the collector
